@@ -357,8 +357,19 @@ def run_case(case):
             h = Hist(spec, order=False, model=m)
             T = m.project.time
             for _ in range(vr.randint(1, 3)):
-                if vr.random() < 0.35:
-                    op = ["remove_abs"]
+                # insert_absence_time_list does not renumber the absence steps that are registered already, and
+                # steps registered beyond the end come into range when the logs grow: a later remove would then
+                # delete real working steps, and no property speaks about logs after that (C18 claims alignment
+                # only). So: steps are inserted into absence-free logs only; logs with registered absence steps
+                # are cleaned first (or get one last insertion).
+                last = False
+                if m.project.absence_time_list:
+                    if vr.random() < 0.7:
+                        op = ["remove_abs"]
+                    else:
+                        last = True
+                if m.project.absence_time_list and not last:
+                    pass
                 else:
                     lo = 1 if prop == "C14" else 0   # see DESIGN C14: an inserted step 0 is not a simulated step
                     pool = list(range(lo, max(lo + 1, m.project.time))) + list(m.project.absence_time_list)
@@ -370,6 +381,8 @@ def run_case(case):
                     res["aborted"] = e
                     res.absorb(tr, props=(prop,))
                     return res
+                if last:
+                    break
             tr.end(m.project)
         res.absorb(tr, props=(prop,))
         if variant in ("resim", "keeplog", "edit_resim"):
